@@ -58,7 +58,7 @@ pi_entry_parse!(c02_patch_index_entry_parse_n64, 64, 0, 16, "accepted an entry t
 // @harness prop=C02 tier=quick timeout=600 role=patch-index-entry-parse-wide-key
 // @bounds 64 / 800 symbolic bytes, key_size symbolic in 17..=255 (a block header's key_size byte is unchecked input)
 // @encodes cascette_formats::patch_index::entry::PatchIndexEntry::parse
-// @catches KF: key_size > 16 slices the 16-byte key arrays out of range (panic) instead of returning None
+// @catches regression of fix 48c0d5d: key_size > 16 must give None; slicing the 16-byte key arrays with it panics
 #[kani::proof]
 #[kani::unwind(4)]
 fn c02_patch_index_entry_parse_wide_key() {
@@ -67,7 +67,7 @@ fn c02_patch_index_entry_parse_wide_key() {
     kani::assume(ks >= 17);
     let r = PatchIndexEntry::parse(&data, ks);
     kani::cover!(r.is_none(), "too short for the claimed width");
-    assert!(r.is_none(), "KF:patch_index_entry_key_size accepted key_size > 16");
+    assert!(r.is_none(), "PatchIndexEntry::parse accepted key_size > 16 (keys are 16-byte arrays)");
 }
 
 // ---- PatchIndexHeader::parse --------------------------------------------------------------------------
@@ -84,7 +84,7 @@ macro_rules! pi_header_parse {
             spy::reset();
             let r = PatchIndexHeader::parse(&data);
             if $alloc {
-                assert!(spy::max_req() <= spy::limit(N), "KF:patch_index_header_block_count allocation request out of proportion to input");
+                assert!(spy::max_req() <= spy::limit(N), "PatchIndexHeader::parse: block table reservation out of proportion to input");
             }
             kani::cover!(r.is_ok() || N < 18, "accepted");
             kani::cover!(r.is_err(), "rejected");
@@ -122,7 +122,7 @@ pi_header_parse!(c02_patch_index_header_parse_n43, 43, false);
 // @bounds input of concrete length N, all bytes symbolic
 // @encodes cascette_formats::patch_index::header::PatchIndexHeader::parse
 // @assumes allocator spy: std::alloc::{alloc,alloc_zeroed,realloc} record the largest request
-// @catches KF: Vec::with_capacity(block_count) with block_count an unchecked u32 from the input (18-byte input requests up to 32 GiB)
+// @catches regression of fix bc1e587: Vec::with_capacity(block_count) with block_count an unchecked u32 from the input (18-byte input requested up to 32 GiB); cap dropped or computed from the wrong remaining length
 pi_header_parse!(c02_patch_index_header_alloc_n18, 18, true);
 pi_header_parse!(c02_patch_index_header_alloc_n27, 27, true);
 // @end
@@ -169,7 +169,7 @@ pi_block!(c02_patch_index_block8_n40, parse_block8, 40, 14, 0, 16);
 // @harness prop=C02 tier=quick timeout=900 role=patch-index-block2-wide-key
 // @bounds 80-byte block, all bytes symbolic, key_size byte 17..=255
 // @encodes cascette_formats::patch_index::parser::parse_block2, cascette_formats::patch_index::entry::PatchIndexEntry::parse
-// @catches KF: a block whose key_size byte exceeds 16 panics in PatchIndexEntry::parse (slice of a 16-byte array) instead of returning Err
+// @catches regression of fix 48c0d5d: a block whose key_size byte exceeds 16 must be rejected (or hold no entries), never panic / yield entries
 #[kani::proof]
 #[kani::unwind(4)]
 fn c02_patch_index_block2_wide_key() {
@@ -178,7 +178,7 @@ fn c02_patch_index_block2_wide_key() {
     let r = parse_block2(&data);
     kani::cover!(r.is_err(), "rejected");
     if let Ok((_, es)) = &r {
-        assert!(es.is_empty(), "KF:patch_index_entry_key_size entries with key_size > 16 accepted");
+        assert!(es.is_empty(), "parse_block2 returned entries for key_size > 16");
     }
     std::mem::forget(r);
 }
